@@ -111,6 +111,13 @@ def grid(params: Dict) -> nx.MultiDiGraph:
                 g.add_edge(a, t, **d)
         if not nx.is_strongly_connected(g):
             raise RuntimeError("stub construction broke connectivity")
+    # streets digitised twice: a second, identical edge between the same two junctions (same length and speed, so nothing
+    # about travel times becomes ambiguous; the link table then has fewer distinct ids than the graph has edges)
+    p_par = float(params.get("parallel", 0.0))
+    if p_par > 0:
+        for a, b, d in [(a, b, dict(d)) for a, b, d in g.edges(data=True)]:
+            if rnd.random() < p_par:
+                g.add_edge(a, b, **d)
     # dead-end spurs: a driveway of 3-10 m off a junction (both directions); at ordinary speeds it takes less than a second
     p_spur = float(params.get("spurs", 0.0))
     if p_spur > 0:
